@@ -316,8 +316,13 @@ META = {
                 'has no pair overlapping with positive area; scan-line invariant: sorted scan line, firstAbove/firstBelow = predecessor/successor, chains '
                 'of links preserved by open/close); C09_pipeline_chain / C09_removeoverlaps_no_overlap (no overlap after the last pass of removeoverlaps, '
                 'given only that the solver\'s answer satisfies that pass\'s acyclic constraint set - stated as an explicit premise `solver_contract`). '
-                'PARTIAL: the solver premise is not discharged by a theorem (removeoverlaps calls the static vpsc::Solver, which has no Coq model; the C01 '
-                'theorems are about the IncSolver model and give slack >= -1e-10, not exact satisfaction). The entail_check certificate is still evaluated on '
+                'Static-solver round: C09_removeoverlaps_no_overlap_static replaces that premise by the Coq model of the solver removeoverlaps really calls '
+                '(Vpsc/StaticModel.v: vpsc::Solver with shape-exact pairing heaps, compared exactly with the compiled solver by checks/c01.py / c02.py) and carries '
+                'the solver\'s tolerance through the chain lemma (C09_pipeline_x/y_chain_tolerance: constraints satisfied up to eps leave no overlap when '
+                'eps * n <= 2 * EXTRA_GAP; eps = 1e-10, n <= 10^7; C09_static_solve_contract: a normal return of the model satisfies every constraint to 1e-10). '
+                'PARTIAL: one premise remains - the static solver model RETURNS on the last pass (does not throw UnsatisfiedConstraint on that acyclic set, fuel '
+                'suffices); C01_static_no_throw_on_dag_partial proves only the closing step, the order argument of mergeLeft is evaluated as booleans on every '
+                'visited state of every DAG instance (evidence key model_invariants_static_solver of C01). The entail_check certificate is still evaluated on '
                 'every instance (model\'s and implementation\'s constraint sets) as validation of model and chain lemma. The model is compared exactly '
                 'with the compiled generators on every run.',
         'design_ref': 'DESIGN.md 5.9'},
